@@ -11,7 +11,7 @@ from ..base_model import BaseModel
 from ..data_container import DataContainer
 from ..preprocessing.preprocessor import Preprocessor
 from ..utils.data_types import DataArray, DataObject
-from ..utils.sanity_checks import validate_input_type
+from ..utils.sanity_checks import sanity_check_n_modes, validate_input_type
 from ..utils.xarray_utils import convert_to_dim_type
 
 xr.set_options(keep_attrs=True)
@@ -71,6 +71,8 @@ class BaseModelSingleSet(BaseModel):
     ):
         super().__init__()
 
+        # Not every algorithm runs a Decomposer, which would reject an invalid n_modes
+        sanity_check_n_modes(n_modes)
         self.n_modes = n_modes
         self.sample_name = sample_name
         self.feature_name = feature_name
